@@ -380,10 +380,27 @@ def worker(case, led):
                             continue
                         a = a.canonicalise().canonicalise()
                         a = a.scale(scale_)
+                        gauge = "canonical"
+                        if (M + int(imag) + int(scale_ < 1)) % 2 == 0:
+                            # a complex, symmetry-respecting gauge transformation G, G^-1 on every bond: the same state, flagged left-canonical (to_right False,
+                            # centre at the last site) although its tensors are not isometries - the overlap-forcing branch must cope with that
+                            a = a.ensure_left_canonical().to_complex()
+                            for b_ in range(1, n):
+                                lab = np.asarray(a.qn[b_]).reshape(len(a.qn[b_]), -1)
+                                D_ = lab.shape[0]
+                                G = np.zeros((D_, D_), dtype=complex)
+                                for i_ in range(D_):
+                                    for j_ in range(D_):
+                                        if np.all(lab[i_] == lab[j_]):
+                                            G[i_, j_] = (1.0 if i_ == j_ else 0.0) + 0.35 * (rng.normal() + 1j * rng.normal())
+                                Gi = np.linalg.inv(G)
+                                a[b_ - 1] = np.tensordot(np.asarray(a[b_ - 1].array), G, axes=1)
+                                a[b_] = np.tensordot(Gi, np.asarray(a[b_].array), axes=1)
+                            gauge = "random complex gauge, flagged left-canonical"
                         Dn.set_evolve(a, method, M=64)
-                        key = (name, n, method, str(q), M, imag, scale_)
+                        key = (name, n, method, str(q), M, imag, scale_, gauge)
                         rep = {"model": name, "nsites": n, "method": method, "sector": q, "M": M, "imaginary_time": imag, "scale": scale_, "seed": seed,
-                               "bond_dims": [int(b) for b in a.bond_dims]}
+                               "bond_dims": [int(b) for b in a.bond_dims], "gauge": gauge}
                         box = {}
 
                         def fake(fun, t_span, y0, *args, **kw):
